@@ -541,6 +541,30 @@ import array as _array
 def t_islice(I, args, kw, node):
     """itertools.islice(iterable, stop) / (iterable, start, stop) on a sequence of known length"""
     a0 = args[0]
+    from .values import SIterator, SIter
+    if isinstance(a0, SIterator) and len(args) == 2:
+        # islice(iterator, n): the next min(n, remaining) items; the iterator is advanced past them
+        it, p0, stop = a0.it, a0.pos, args[1]
+        rem = it.length - p0
+        if isinstance(stop, int) and 0 <= stop <= 4 and L.is_z3(L.to_z3(rem) if not isinstance(rem, int) else rem) is False and isinstance(rem, int):
+            take = min(rem, stop)
+        elif isinstance(stop, int) and 0 <= stop <= 4:
+            take = None
+            for k in range(stop):
+                if I.ctx.branch(L.eq(rem, k)):
+                    take = k
+                    break
+            if take is None:
+                I.ctx.assume(L.to_z3(L.le(stop, rem)))
+                take = stop
+        else:
+            take = L.Min(rem, stop)
+            I.ctx.assume(L.to_z3(L.le(0, stop)))
+        I.note_write(a0)
+        a0.pos = p0 + take
+        if isinstance(take, int):
+            return [it.item(p0 + k) for k in range(take)]
+        return SIter(take, lambda k: it.item(p0 + k), "islice")
     if a0 is None or isinstance(a0, (int, float, bool)) or (L.is_z3(a0) and not isinstance(a0, z3.SeqRef)) \
             or (not isinstance(a0, (SObj, SBytes, SList, str, bytes, list, tuple, dict, set, frozenset)) and not L.is_z3(a0) and not hasattr(a0, "__iter__")
                 and type(a0).__module__.startswith("pdfminer")):
